@@ -6,6 +6,7 @@
   Both are tied to /repo on every run by harness/engines/c26.py.
 -/
 import PonyVerif.Model.Mapping
+import PonyVerif.Gen.SchemaParams
 namespace PonyVerif.Props.C26
 open PonyVerif.Model.Schema PonyVerif.Model.Mapping
 
@@ -73,6 +74,40 @@ theorem C26_default_column_names_agree (d : Dialect) (a : Name) (r : Option (Lis
   · intro e pk
     unfold defaultM2mColumnTNames defaultM2mColumnNames names
     split <;> simp [TName.norm, List.map_map, Function.comp_def]
+
+/-! ### bridge to the constants and templates extracted from the source on every run (Gen/SchemaParams.lean) -/
+
+def dialectName : Dialect → String
+  | .sqlite => "sqlite" | .postgres => "postgres" | .mysql => "mysql" | .oracle => "oracle"
+
+/-- the case folding of the model's `normalizeName`, by name -/
+def foldOf : Dialect → String
+  | .sqlite => "keep" | .postgres => "lower" | .mysql => "lower" | .oracle => "upper"
+
+def applyFold (f : String) (n : Name) : Name :=
+  if f = "lower" then lower n else if f = "upper" then upper n else n
+
+/-- the model's per-dialect parameters are the ones in the current source: `max_name_len` of each provider class, the
+    form of each `normalize_name` (`name[:max_name_len]` followed by nothing / `.lower()` / `.upper()`), and
+    `named_foreign_keys` of each schema class -/
+theorem C26_bridge_params (d : Dialect) :
+    PonyVerif.Gen.SchemaParams.maxNameLen (dialectName d) = some (maxNameLen d) ∧
+    PonyVerif.Gen.SchemaParams.fold (dialectName d) = some (foldOf d) ∧
+    PonyVerif.Gen.SchemaParams.namedForeignKeys (dialectName d) = some (namedForeignKeys d) ∧
+    ∀ n, normalizeName d n = applyFold (foldOf d) (n.take (maxNameLen d)) := by
+  cases d <;> simp [PonyVerif.Gen.SchemaParams.maxNameLen, PonyVerif.Gen.SchemaParams.fold,
+    PonyVerif.Gen.SchemaParams.namedForeignKeys, dialectName, foldOf, maxNameLen, namedForeignKeys, normalizeName, applyFold]
+
+/-- the literal fragments of the name templates in the source are the ones the model concatenates -/
+theorem C26_bridge_templates :
+    PonyVerif.Gen.SchemaParams.indexTemplates = ["pk_%s", "unq_%(tname)s__%(cnames)s", "idx_%(tname)s", "idx_%(tname)s__%(cnames)s", "_"] ∧
+    PonyVerif.Gen.SchemaParams.fkTemplates = ["fk_%s__%s", "__"] ∧
+    PonyVerif.Gen.SchemaParams.columnTemplates = ["_", "_", "_", "_"] ∧
+    PonyVerif.Gen.SchemaParams.m2mColumnSuffixes = ["_2"] ∧
+    PonyVerif.Gen.SchemaParams.tableSuffixTemplates = ["_%d"] ∧
+    sPk = "pk_".toList ∧ sUnq = "unq_".toList ∧ sIdx = "idx_".toList ∧ sFk = "fk_".toList ∧ sU = "_".toList ∧
+    sUU = "__".toList ∧ sU2 = "_2".toList := by
+  refine ⟨rfl, rfl, rfl, rfl, rfl, ?_, ?_, ?_, ?_, ?_, ?_, ?_⟩ <;> decide
 
 /-! ### distinctness -/
 
